@@ -156,8 +156,17 @@ fn peek(w: &World) -> &Value<VTr> {
     unsafe { &*IngredientImpl::<VTr>::data_raw(w.zalsa.table(), w.id) }
 }
 
-/// Shared body of the three `update` harnesses.
-fn update_case(which: u8) {
+// @verif prop=C06,C03,C01,C07,C02,C23 obl=O4 tier=thorough bounds="one page-backed tracked struct (1 identity + 1 tracked u32 field); symbolic old/new field values, old updated_at in [1, now], old/new durability, old field revision <= old updated_at, new stamp changed_at <= now, stored generation (full u32); arbitrary INV runtime state"
+// @+ encodes="tracked_struct::IngredientImpl::<VTr>::update, IngredientImpl::data_raw, IngredientImpl::clear_memos, OptionalAtomicRevision::load/swap, Id::next_generation, update_field, MemoTableWithTypesMut::take_memos, MemoTable::reset, Table::get_raw"
+/// C06-O4: re-creating a struct with the same identity field value keeps its id (same slot, same generation);
+/// the tracked field's revision moves to the creator's changed_at iff its value differs or the durability decreased
+/// (C03/C01), the durability and values are updated, and the struct is stamped as updated in this revision.
+/// A changed identity field (hash collision) or a struct already updated in this revision follow their documented paths:
+/// new generation with cleared memos (C07), resp. left untouched.
+#[kani::proof]
+#[kani::unwind(5)]
+#[kani::stub(real_catch_unwind, stub_catch_unwind)]
+fn c06_o4_update_keeps_identity() {
     let old: (u32, u32) = (kani::any(), kani::any());
     let new: (u32, u32) = (kani::any(), kani::any());
     let d_old = any_durability();
@@ -168,12 +177,6 @@ fn update_case(which: u8) {
     let frev: usize = kani::any();
     kani::assume(1 <= frev && frev <= up);
     let generation: u32 = kani::any();
-    // structure enumerated (one harness per case), values symbolic
-    match which {
-        0 => kani::assume(up < w.now && generation != u32::MAX && new.0 == old.0),
-        1 => kani::assume(up < w.now && generation != u32::MAX && new.0 != old.0),
-        _ => kani::assume(up == w.now || generation == u32::MAX),
-    }
     {
         // SAFETY: single-threaded.
         let v = unsafe { &mut *IngredientImpl::<VTr>::data_raw(w.zalsa.table(), w.id) };
@@ -223,52 +226,12 @@ fn update_case(which: u8) {
         assert!(v.durability == d_new, "C03: re-created struct did not take the creator's durability");
         assert!(v.updated_at.load() == Some(Revision::from(w.now)), "C06: re-created struct not stamped as updated in this revision");
     }
-    kani::cover!(new.1 == old.1);
-    kani::cover!(new.1 != old.1);
-    kani::cover!(dur_index(d_new) < dur_index(d_old));
+    kani::cover!(!locked && generation != u32::MAX && new.0 == old.0 && new.1 == old.1);
+    kani::cover!(!locked && generation != u32::MAX && new.0 == old.0 && new.1 != old.1);
+    kani::cover!(!locked && generation != u32::MAX && new.0 != old.0);
+    kani::cover!(locked);
+    kani::cover!(!locked && new.1 == old.1 && dur_index(d_new) < dur_index(d_old) && generation == 0);
     std::mem::forget(w);
-}
-
-// @verif prop=C06,C03,C01,C07,C02,C23 obl=O4 tier=thorough bounds="CASE A (identity fields equal, struct not yet validated in this revision, generation < u32::MAX); one page-backed tracked struct (1 identity + 1 tracked u32 field); symbolic old/new field values, old updated_at in [1, now], old/new durability, old field revision <= old updated_at, new stamp changed_at <= now, stored generation (full u32); arbitrary INV runtime state"
-// @+ encodes="tracked_struct::IngredientImpl::<VTr>::update, IngredientImpl::data_raw, IngredientImpl::clear_memos, OptionalAtomicRevision::load/swap, Id::next_generation, update_field, MemoTableWithTypesMut::take_memos, MemoTable::reset, Table::get_raw"
-/// C06-O4: re-creating a struct with the same identity field value keeps its id (same slot, same generation);
-/// the tracked field's revision moves to the creator's changed_at iff its value differs or the durability decreased
-/// (C03/C01), the durability and values are updated, and the struct is stamped as updated in this revision.
-/// A changed identity field (hash collision) or a struct already updated in this revision follow their documented paths:
-/// new generation with cleared memos (C07), resp. left untouched.
-#[kani::proof]
-#[kani::unwind(5)]
-#[kani::stub(real_catch_unwind, stub_catch_unwind)]
-fn c06_o4_update_same_identity() {
-    update_case(0);
-}
-
-// @verif prop=C06,C03,C01,C07,C02,C23 obl=O4 tier=thorough bounds="CASE B (identity field differs: hash collision path); one page-backed tracked struct (1 identity + 1 tracked u32 field); symbolic old/new field values, old updated_at in [1, now], old/new durability, old field revision <= old updated_at, new stamp changed_at <= now, stored generation (full u32); arbitrary INV runtime state"
-// @+ encodes="tracked_struct::IngredientImpl::<VTr>::update, IngredientImpl::data_raw, IngredientImpl::clear_memos, OptionalAtomicRevision::load/swap, Id::next_generation, update_field, MemoTableWithTypesMut::take_memos, MemoTable::reset, Table::get_raw"
-/// C06-O4: re-creating a struct with the same identity field value keeps its id (same slot, same generation);
-/// the tracked field's revision moves to the creator's changed_at iff its value differs or the durability decreased
-/// (C03/C01), the durability and values are updated, and the struct is stamped as updated in this revision.
-/// A changed identity field (hash collision) or a struct already updated in this revision follow their documented paths:
-/// new generation with cleared memos (C07), resp. left untouched.
-#[kani::proof]
-#[kani::unwind(5)]
-#[kani::stub(real_catch_unwind, stub_catch_unwind)]
-fn c06_o4_update_identity_changed() {
-    update_case(1);
-}
-
-// @verif prop=C06,C03,C01,C07,C02,C23 obl=O4 tier=thorough bounds="CASE C (struct already validated in this revision, or generation == u32::MAX); one page-backed tracked struct (1 identity + 1 tracked u32 field); symbolic old/new field values, old updated_at in [1, now], old/new durability, old field revision <= old updated_at, new stamp changed_at <= now, stored generation (full u32); arbitrary INV runtime state"
-// @+ encodes="tracked_struct::IngredientImpl::<VTr>::update, IngredientImpl::data_raw, IngredientImpl::clear_memos, OptionalAtomicRevision::load/swap, Id::next_generation, update_field, MemoTableWithTypesMut::take_memos, MemoTable::reset, Table::get_raw"
-/// C06-O4: re-creating a struct with the same identity field value keeps its id (same slot, same generation);
-/// the tracked field's revision moves to the creator's changed_at iff its value differs or the durability decreased
-/// (C03/C01), the durability and values are updated, and the struct is stamped as updated in this revision.
-/// A changed identity field (hash collision) or a struct already updated in this revision follow their documented paths:
-/// new generation with cleared memos (C07), resp. left untouched.
-#[kani::proof]
-#[kani::unwind(5)]
-#[kani::stub(real_catch_unwind, stub_catch_unwind)]
-fn c06_o4_update_locked_or_max_generation() {
-    update_case(2);
 }
 
 // @verif prop=C06,C07 obl=O4 tier=thorough bounds="one page-backed tracked struct last updated before `now`; symbolic stored generation, field values; arbitrary INV runtime state"
